@@ -19,8 +19,9 @@ DOC = {
         'C09.R4': 'visited set consulted only under follow_links; hidden = file name starts with "."; .gitignore consulted unless no_ignore',
         'C09.R5': 'include/exclude path patterns are made absolute with abs_pattern(base_dir, _); name patterns are not',
         'C09.R6': 'visit_dir reads a directory iff level < depth && matches_dir && (!one_fs || same_fs) (reach table over these atoms)',
+        'C09.R14': 'the directory admission test (PathSelector::matches_dir: "could something below match?") is applied to directories only: its callers are visit_dir alone - applied to an input path or a link target that is a file it asks whether `file/...` is excluded and drops files that no pattern excludes',
         'C09.R13': 'ignore files as documented: IgnoreStack::push loads .gitignore and .fdignore of a directory independently of each other (neither is looked at only when the other is absent); IgnoreStack::matches lets the deepest ignore file that says anything decide (reverse iteration, a whitelist `!` match ends the search with "not ignored"), instead of "ignored by any level"',
-        'C09.R12': 'input paths read from the standard input (--stdin) are taken as bytes, like paths given as arguments (OsString): no UTF-8-only reader (lines / read_line / read_to_string / String::from_utf8 + unwrap) between stdin and Path',
+        'C09.R12': 'input paths read from the standard input (--stdin) are taken as bytes, like paths given as arguments (OsString): no UTF-8-only reader (lines / read_line / read_to_string / String::from_utf8 + unwrap) between stdin and Path; an empty line is not a path (it would mean the working directory)',
         'C09.R11': 'marking an entry as visited (follow_links) does not cut off routes that would get further: the mark is made after the route-dependent .gitignore test, and either it records the nesting level (a directory reached again at a smaller level is read again) or it is made only after the --depth test passed',
         'C09.R10': 'a --regex pattern is never joined with anchors (^...$) or with another pattern (base directory + relative pattern) without a grouping step for a top-level alternation: `^a|b$` means (^a)|(b$), which selects files that are not matched fully and makes the fixed prefix used for pruning the prefix of the first alternative only',
         'C09.R9': 'matches_dir prunes a directory because of an --exclude pattern only through a predicate that holds for the whole subtree: the regex match of the directory path is gated by a test that the pattern source ends with `.*` (`**`); a bare prefix or full match of the directory path is not conservative (`--exclude o` would prune `other/`)',
@@ -47,7 +48,9 @@ def run(ctx):
     r10(ctx)
     r11(ctx)
     r12(ctx)
+    r12b(ctx)
     r13(ctx)
+    r14(ctx)
     from .common import run_mandatory
     run_mandatory(ctx, 'C09')
 
@@ -168,6 +171,20 @@ def _groups(lib, body, operand):
     return False
 
 
+def r14(ctx):
+    rule = 'C09.R14'
+    lib = ctx.lib
+    callers = [(b, c) for b in lib.bodies.values() if not re.search(r'(^|::)tests?(::|$)', b.path) for c in b.calls(r'PathSelector::matches_dir$')]
+    if not ctx.floor(rule, 'callers of PathSelector::matches_dir', len(callers), 1, ''):
+        return
+    for b, c in callers:
+        root = b.raw.get('root') or b.path
+        ok = root.endswith('::visit_dir')
+        ctx.check(ok, rule, '%s|matches_dir-only-for-dirs' % root, c.where(), 'matches_dir is consulted by visit_dir',
+                  'matches_dir is applied in %s to a path whose type is not known to be a directory: for a file F given as an input path (argument, --stdin line) or reached through a followed link, '
+                  "`--exclude '**/cache*/**'` asks whether `F/` lies below an excluded directory and drops e.g. `cache.db`, which the pattern does not match" % root)
+
+
 def r13(ctx):
     rule = 'C09.R13'
     lib = ctx.lib
@@ -215,6 +232,20 @@ def r12(ctx):
     ctx.check(not bad, rule, b.path + '|stdin-bytes', (bad[0].where() if bad else rd[0].where()), 'paths from stdin are split as bytes',
               'paths from stdin pass %s, which accepts UTF-8 only: one file name that is not valid UTF-8 in `find | fclones group --stdin` makes the run fail (the unwrap of the line panics) '
               'while the same path given as an argument is scanned' % (bad[0].path.rsplit('::', 1)[-1] if bad else ''))
+
+
+def r12b(ctx):
+    rule = 'C09.R12'
+    lib = ctx.lib
+    b = lib.body('config::GroupConfig::input_paths')
+    if b is None:
+        return
+    bodies = [b] + [lib.body(c) for c in lib.closures_of(b.path)]
+    flt = [c for c in b.calls(r'Iterator::(filter|filter_map|skip_while|take_while)$') if backslice(b, [c.args[0]]).has_call(r'^std::io::stdin$')]
+    emp = [c for x in bodies for c in x.calls(r'::is_empty$')]
+    ctx.check(bool(flt) and bool(emp), rule, b.path + '|no-empty-line', (flt[0].where() if flt else b.where()), 'empty lines of the stdin list are filtered out',
+              'every line of the stdin list becomes a path, and an empty string becomes `.`: a blank line (or `echo "$files" | fclones group --stdin` with an empty variable) makes fclones scan the whole '
+              'working directory, and files that were never selected are reported as duplicates')
 
 
 def r11(ctx):
